@@ -324,6 +324,25 @@ Section WTotal.
     - intros x y Hxy. apply bc_scale_comp. exact Hxy.
     - intros i _. cbn [plus]. apply (HV i).
   Qed.
+  (* the model never runs out of fuel in weighted mode *)
+  Theorem weighted_core_total : exists bet, bc_core lw true g = Some bet.
+  Proof.
+    assert (G : forall l bet0, (forall x, In x l -> (x < n)%nat) ->
+              exists bet, fold_left (fun ob src =>
+                 match ob with
+                 | None => None
+                 | Some b => match single_source lw true g src with
+                             | Some r => Some (accumulate_r b r)
+                             | None => None
+                             end
+                 end) l (Some bet0) = Some bet).
+    { induction l as [|src t IH]; intros bet0 Hr; cbn [fold_left]; [eexists; reflexivity|].
+      destruct (bdijkstra_total g src Hok (Hr src (or_introl eq_refl)) Hcost lw) as [s Es].
+      unfold single_source at 2. rewrite Es. apply IH. intros x Hx. apply Hr. right. exact Hx. }
+    assert (Hser : exists bet, bc_serial lw true g = Some bet).
+    { unfold bc_serial. apply G. intros x Hx. apply in_seq in Hx. lia. }
+    unfold bc_core. destruct (Nat.ltb PAR_THRESHOLD n); [rewrite parallel_eq_serial|]; exact Hser.
+  Qed.
 End WTotal.
 
 (* ------------------------------------------------------------------ at the level of the graph state *)
